@@ -104,11 +104,11 @@ Print Assumptions C08_frame_discipline_partial.
    return only; per access: the monitor), array/proc formals, the entry/exit stub. *)
 Theorem C08_call_discipline_partial :
   forall (ge : genv) (gaddr : string -> option Z) (pool : Z -> option Z) (P : Z -> Prop) (m0 : WMap.t)
-         (lab : label -> Z) (pinfo : string -> option pframe) (lay : string -> option playout) (stack_lo maxframe : Z),
+         (lab : label -> Z) (pinfo : string -> option pframe) (stack_lo maxframe : Z),
     (forall p pi, pinfo p = Some pi ->
        0 <= lab (pf_entry pi) /\
        exists pr fn ln L bc n' endp,
-         find_proc p (g_procs ge) = Some pr /\ pf_isfunc pi = is_func pr /\ lay p = Some L /\ simple_proc gaddr pr fn ln /\
+         find_proc p (g_procs ge) = Some pr /\ pf_isfunc pi = is_func pr /\ simple_proc gaddr pr fn ln /\
          numbers_ok maxframe pr L /\
          cs pinfo (frame_venv gaddr pr (pl_size L)) pool (pl_size L) (pl_nslots L) (first_temp pr) (pl_og L) (pl_exit L)
             (body pr) (pl_n0 L) = Some (bc, n') /\
@@ -139,7 +139,7 @@ Print Assumptions C08_call_discipline_partial.
    main's body `g := 0; cd(3); g := fd(g)` run from main's frame: after four nested activations of cd and seven of
    fd the stack-pointer word holds 199994 as before. *)
 Example C08_call_discipline_nonvacuous_hyps :
-  prog_hyps demo_ge demo_gaddr demo_pool demo_P demo_m0 demo_lab demo_pinfo demo_lay demo_stack_lo demo_maxframe.
+  prog_hyps demo_ge demo_gaddr demo_pool demo_P demo_m0 demo_lab demo_pinfo demo_stack_lo demo_maxframe.
 Proof. exact demo_hyps. Qed.
 Example C08_call_discipline_nonvacuous_run : forall a b inp, exists a' b' m',
   runs inp (mk 112 a b 0 (wr demo_m0 1 199994)) [Write 51 0; Write 50 0; Write 49 0; Write 48 0] inp (mk 129 a' b' 0 m') /\
